@@ -10,7 +10,6 @@ from lib import common
 from lib.common import hx, Corr
 from . import keyslib as K
 
-EXTRA_PROPS = ["C09t"]   # translator tie of keys.py / curves.py / PEM (Generated/KeysSlices.lean)
 RULE = ("per named curve: d in {1, 2, 3, n-1, n-2, 256^(l-1)-1, 256^(l-1), 256^(l-2)-1, first d whose x resp. y has a "
         "leading zero byte, random}; every key through to_string/from_string (4 point encodings), to_der/from_der and "
         "to_pem/from_pem (3 point encodings + the rejected raw, ssleay and pkcs8), plus independently encoded variants "
@@ -18,6 +17,7 @@ RULE = ("per named curve: d in {1, 2, 3, n-1, n-2, 256^(l-1)-1, 256^(l-1), 256^(
         "attributes); out-of-range secret exponents; base64/PEM armour on all short inputs and odd line structures. "
         "distinct = operation line; non-trivial = every case with a valid key (all but the out-of-range ones)")
 LEANCHECK = ["Props.C09"]
+EXTRA_PROPS = ["C09t"]   # translator tie of keys.py / curves.py decisions (gen_keys.py -> Generated/KeysSlices.lean, Props/C09t.lean; by rand)
 ASSUMPTIONS = [
     "generic theorems: Q = dG (Ext.pubPoint), the square root and base64.b64decode are parameters with their contracts as "
     "hypotheses; all_round_trips_model discharges them on the composed model (C07 via GroupInterface with the base-point "
